@@ -47,3 +47,23 @@ Definition payload_of_children (S : schema) (lbl : flabel) (t : ftype) (num : Z)
   | LMap _, VMap kvs => Some (flat_map (kid_entry_span t num) kvs)
   | _, _ => None
   end.
+
+(* the answer of a bulk lookup (GetMany / Fields / Indexes / Gets) for one request: node type and bytes of the element
+   the single lookup finds, None (slot left untouched) when it finds none *)
+Definition lookup_out (S : schema) (lbl : flabel) (t : ftype) (num : Z) (v : pval) (s : pstep) : option (Z * list Z) :=
+  match plookup S lbl t num v [s] with
+  | LFound l' t' n' v' => Some (node_type l' t', node_raw l' n' v')
+  | _ => None
+  end.
+Definition is_field_req (s : pstep) : bool := match s with PField _ => true | _ => false end.
+Definition is_index_req (s : pstep) : bool := match s with PIndex _ => true | _ => false end.
+Definition is_key_req (s : pstep) : bool := match s with PStrKey _ | PIntKey _ => step_okb s | _ => false end.
+(* requests: non-empty, pairwise distinct (Go fills only the FIRST slot naming a child: duplicates stay empty) *)
+Definition step_eq (a b : pstep) : bool :=
+  match a, b with
+  | PField x, PField y | PIndex x, PIndex y | PIntKey x, PIntKey y => x =? y
+  | PName x, PName y | PStrKey x, PStrKey y => bytes_eqb x y
+  | _, _ => false
+  end.
+Definition reqs_okb (kind : pstep -> bool) (reqs : list pstep) : bool :=
+  negb (is_nil reqs) && forallb kind reqs && nodupb step_eq reqs.
